@@ -66,7 +66,7 @@ def run(rep, tier):
 
     with ThreadPoolExecutor(nproc) as ex:
         results = list(ex.map(drive, range(nproc)))
-    total = nsteps = nconv = nagg = 0
+    total = nsteps = nconv = nagg = npairs = 0
     for crashed, o, bad, acc, rejects, rs, known in results:
         for kf in known[:1]:
             rep.violation("ellipsoid reports converged with a gap above 10 epsilon (tight epsilon, warm start): %s" % kf, payload=kf, signature=KNOWN_ELLIPSOID)
@@ -82,17 +82,20 @@ def run(rep, tier):
             if x["e"] == "BStep":
                 nsteps += 1
                 nagg += 0 if x["exact"] else 1
-            elif x["e"] == "Sharp" and x["status"] == "converged":
-                nconv += 1
-    if not rep.violations and (nsteps < 2000 or nconv < 100):
-        raise CheckError("bundle coverage too small: %d steps, %d converged sharp runs" % (nsteps, nconv))
+            elif x["e"] == "Sharp":
+                nconv += 1 if x["status"] == "converged" else 0
+                npairs += 1 if x.get("pairs", 0) > 0 else 0
+    if not rep.violations and (nsteps < 2000 or nconv < 100 or npairs < 100):
+        raise CheckError("bundle coverage too small: %d steps, %d converged sharp runs, %d runs with drawn csearch::m1m2 / prox::miu0_range"
+                         % (nsteps, nconv, npairs))
     rep.sample({"bundle_history": [x for x in results[0][5] if x["e"] in ("BInit", "BStep")][:4]})
     rep.sample([x for x in results[0][5] if x["e"] == "Sharp"][0])
     rep.add(traces_validated_against_impl=total, evaluations=total, distinct_nontrivial=nconv, bundle_steps=nsteps, aggregated_steps=nagg,
-            converged_sharp_runs=nconv,
+            converged_sharp_runs=nconv, runs_with_drawn_pair_parameters=npairs,
             rule="bundle histories: 1-D objectives sum a_k|z-b_k| (integer), bundle sizes 2..100, up to 14 solve+null/serious steps; sharp runs: "
                  "|A(x-x*)|_1 or _inf (+ (mu/2)|x-x*|^2), sigma_min(A) >= 1, n <= 8 (ellipsoid n <= 6), epsilon 1e-8..1e-3, bundle size 2..100, "
-                 "max_evals 100..20000; non-trivial = runs reporting `converged` (the clause's antecedent)")
+                 "max_evals 100..20000, in half of the runs curve-search / proximity parameters (m3, m4, interpol, extrapol, min_dot_nuv, the pairs m1m2 and "
+                 "miu0_range) drawn around their defaults or anywhere in their domains; non-trivial = runs reporting `converged` (the clause's antecedent)")
     rep.assume("the n-dimensional optimality gap f(x)-f* <= 2 eps sqrt(n) (1+|x-x*|) (10 eps for the ellipsoid) is computed by the driver from its "
                "own objective with known minimiser; TLC derives the cuts exactly only in one dimension with integer data",
                "after an aggregation (bundle nearly full) the cuts are real-valued: their lower-bound property is then tested by the driver on the "
